@@ -33,8 +33,8 @@ STUB = ["SdSimulation worker threads run serially (the models are deterministic;
 ASSUMPTIONS = ["after a session passed step-level settings for an element to a scenario, that scenario's OWN results are not judged until it is explicitly re-parameterised for that element (the property does not say whether step settings outlive the session); all other scenarios and the base models stay under the oracle",
                "the fresh-model oracle shares the DSL core with the system (its correctness is C01, not claimed)"]
 FAULT_KINDS = []
-PROBES = ["hybrid_manager", "managers_share_base_object", "points_setting", "runspec_setting", "step_level_setting", "rest_run_setting", "session_left_open",
-          "scenario_added_later", "session_with_foreign_operations"]
+PROBES = ["observed_together_with_sibling", "sibling_on_another_grid", "hybrid_manager", "managers_share_base_object", "points_setting", "runspec_setting", "step_level_setting", "rest_run_setting", "session_left_open",
+          "scenario_added_later", "session_with_foreign_operations", "scenario_registered_again", "run_over_two_managers", "name_known_to_one_manager_only"]
 EXHAUSTIVE = {"quick": False, "thorough": False}
 
 VALS = [0.0, 0.5, 1.5, 2.0, 3.0, 7.0]
@@ -220,7 +220,18 @@ def generate(spec):
             mgr = rng.choice([m["name"] for m in cfg["managers"]])
             scs = [s for (m, s) in keys if m == mgr]
             sel = rng.sample(scs, rng.randint(1, len(scs)))
-            ops.append({"op": "run", "managers": [mgr], "scenarios": sel,
+            mgrs = [mgr]
+            same_tpl = [m["name"] for m in cfg["managers"] if m["name"] != mgr and tpl_of[m["name"]] == tpl_of[mgr]]
+            if same_tpl and rng.random() < 0.4:
+                # one call over two managers; a name that only ONE of them has is run for that one and must leave the
+                # other manager alone (a scenario added later is such a name)
+                mgrs = [mgr, rng.choice(same_tpl)]
+                only_here = [s_ for s_ in scs if (mgrs[1], s_) not in keys]
+                if only_here and rng.random() < 0.7:
+                    sel = [rng.choice(only_here)]
+                if rng.random() < 0.5:
+                    mgrs.reverse()
+            ops.append({"op": "run", "managers": mgrs, "scenarios": sel,
                         "equations": rng.sample(T.ELEMENTS[tpl_of[mgr]], rng.randint(1, 3)), "format": rng.choice(["df", "dict", "json"])})
         elif r < 0.50:
             mgr = rng.choice([m["name"] for m in cfg["managers"]])
@@ -244,8 +255,13 @@ def generate(spec):
             mgr = rng.choice([m["name"] for m in cfg["managers"]])
             name = "late%d" % added
             added += 1
+            again = [s_ for (m_, s_) in keys if m_ == mgr and not (in_session and in_session[0] == mgr and s_ in in_session[1])]
+            if again and rng.random() < 0.45:
+                # the same name registered again with another definition: what the new definition does not mention is gone
+                name = rng.choice(again)
             ops.append({"op": "add_scenario", "manager": mgr, "name": name, "dict": gen_settings(rng, tpl_of[mgr], base_of[mgr], partial_runspecs=True)})
-            keys.append((mgr, name))
+            if (mgr, name) not in keys:
+                keys.append((mgr, name))
         else:
             ops.append({"op": "end_session"})
             in_session = None
@@ -261,6 +277,10 @@ def apply_op(w, op, res):
         b.run_scenarios(scenarios=list(op["scenarios"]), scenario_managers=list(op["managers"]), equations=list(op["equations"]),
                         series_names={}, return_format=op["format"])
         touched = {(m, s) for m in op["managers"] for s in op["scenarios"]}
+        if len(op["managers"]) > 1:
+            res.probe("run_over_two_managers")
+            if any((m, s) not in w.shadow for (m, s) in touched):
+                res.probe("name_known_to_one_manager_only")
     elif kind == "begin_session":
         b.begin_session(scenarios=list(op["scenarios"]), scenario_managers=list(op["managers"]), settings=copy.deepcopy(op["settings"]),
                         equations=list(op["equations"]))
@@ -296,7 +316,7 @@ def apply_op(w, op, res):
         b.reset_scenario_cache(scenario_manager=op["manager"], scenario=op["scenario"])
         touched = {(op["manager"], op["scenario"])}
     elif kind == "add_scenario":
-        res.probe("scenario_added_later")
+        res.probe("scenario_registered_again" if (op["manager"], op["name"]) in w.shadow else "scenario_added_later")
         w.add_scenario(op["manager"], op["name"], op["dict"])
         touched = {(op["manager"], op["name"])}
     else:
